@@ -253,6 +253,18 @@ func genC15(kind string) func(r *core.Rng) any {
 		x0, y0 := r.Range(-20, 60), r.Range(-20, 60)
 		c.Clip = []float64{x0, y0, x0 + r.Range(5, 150), y0 + r.Range(5, 150)}
 		c.Margin = core.PickF(r, []float64{0, 1, 5, r.Range(0, 20)})
+		// clip rectangles that start exactly on an axis (one offset zero, or both)
+		if r.Chance(0.3) {
+			switch r.Intn(3) {
+			case 0:
+				c.Clip[2], c.Clip[0] = c.Clip[2]-c.Clip[0], 0
+			case 1:
+				c.Clip[3], c.Clip[1] = c.Clip[3]-c.Clip[1], 0
+			default:
+				c.Clip[2], c.Clip[0] = c.Clip[2]-c.Clip[0], 0
+				c.Clip[3], c.Clip[1] = c.Clip[3]-c.Clip[1], 0
+			}
+		}
 		return c
 	}
 }
